@@ -858,7 +858,7 @@ func vfShow(v any) string {
 // vfNormalize passes a tree built in Go through the (trusted) YAML library so
 // that it has the same dynamic types as a decoded document.
 func vfNormalize(m vfMap) (vfMap, error) {
-	b, err := yaml.Marshal(m)
+	b, err := yaml.Marshal(vfEncodable(m))
 	if err != nil {
 		return nil, err
 	}
